@@ -1,5 +1,6 @@
 """Dispatch-table extraction (C14, used by C01/C09/C19): number <-> variant <-> decode/encode callee."""
 import re
+from paths import enum_paths
 from terms import FA, show, mk, ty_of, subterms
 from facts import callee_of
 
@@ -206,6 +207,9 @@ def parser_rule(prog, res, dec, rule="D-par"):
 
 
 def number_table(prog, res, rule="T-num"):
+    """{discriminant: number, None: [discriminants excluded on the None path]} read off Message::number by enumerating its paths: every path
+    is decided by the discriminant of *self alone and returns Some(literal) under exactly one variant, or None (however the body is written:
+    one match yielding the Option, a match yielding the number with an early `return None`, ..)."""
     f = prog.fn(MSG + "::number")
     if f is None:
         res.missing(rule, MSG + "::number")
@@ -214,28 +218,41 @@ def number_table(prog, res, rule="T-num"):
     fa = FA(f, prog)
     out = {}
     none_ok = False
-    for b in sorted(f.reachable()):
-        for i, s in enumerate(f.blocks[b]["stmts"]):
-            if s["k"] != "assign" or s["place"]["local"] != 0 or s["place"]["proj"]:
-                continue
-            v = fa.rv_term(s["rv"], (b, i))
-            g = fa.guards(b)
-            dg = [(gk, gv) for (gt, gk, gv, _, _s) in g if gt.op == "discr" and _is_self(gt.args[0])]
-            loc = {"file": f.loc["file"], "line": s["line"]}
-            if v.op == "agg" and v.args[2] == "Some" and v.args[3] and v.args[3][0].op == "const":
-                c = v.args[3][0].args[1]
-                eq = [gv for gk, gv in dg if gk == "eq"]
-                if len(eq) == 1:
-                    if eq[0] in out:
-                        res.ob(rule, "number-unique | discriminant %s" % eq[0], False, "two results for one variant", loc)
-                    out[eq[0]] = c
-                else:
-                    res.ob(rule, "number-guard | Some(%s)" % c, False, "not under exactly one variant arm", loc)
-            elif v.op == "agg" and v.args[2] == "None":
-                none_ok = True
-                out[None] = [gv for gk, gv in dg if gk == "ne"]
+    try:
+        paths = list(enum_paths(fa, resolve=True)) if not f.loops() else None
+    except Exception:
+        paths = None
+    if paths is None:
+        res.ob(rule, "number-shape | loop-free body", False, "number() has a loop or too many paths", f.loc)
+        return out
+    for blocks, facts, rv, flist in paths:
+        loc = {"file": f.loc["file"], "line": f.term(blocks[-1]).get("line") or f.loc["line"]}
+        dg = [(k, v) for t_, (k, v) in facts.items() if t_.op == "discr" and _is_self(t_.args[0])]
+        other = [t_ for t_ in facts if not (t_.op == "discr" and _is_self(t_.args[0]))]
+        if other:
+            res.ob(rule, "number-guard | %s" % show(other[0], fa.names), False, "number() branches on something other than the variant of *self", loc)
+            continue
+        v = rv
+        if v.op == "agg" and v.args[2] == "Some" and v.args[3] and v.args[3][0].op == "const":
+            c = v.args[3][0].args[1]
+            eq = [gv for gk, gv in dg if gk == "eq"]
+            if len(eq) == 1:
+                if eq[0] in out and out[eq[0]] != c:
+                    res.ob(rule, "number-unique | discriminant %s" % eq[0], False, "two results for one variant", loc)
+                out[eq[0]] = c
             else:
-                res.ob(rule, "number-shape | " + show(v, fa.names), False, "number() must return Some(literal) or None", loc)
+                res.ob(rule, "number-guard | Some(%s)" % c, False, "not under exactly one variant arm", loc)
+        elif v.op == "agg" and v.args[2] == "None":
+            none_ok = True
+            ne = [gv for gk, gv in dg if gk == "ne"]
+            eqn = [gv for gk, gv in dg if gk == "eq"]
+            if eqn:
+                out.setdefault(("none-eq",), []).extend(eqn)
+            else:
+                out[None] = ne[0] if len(ne) == 1 else [x for l_ in ne for x in l_]
+        else:
+            res.ob(rule, "number-shape | " + show(v, fa.names), False, "number() must return Some(literal) or None", loc)
+    out.pop(("none-eq",), None)
     res.ob(rule, "none-arm | number() has a None arm", none_ok, "", f.loc)
     return out
 
